@@ -760,20 +760,20 @@ Proof.
   - split; assumption.
 Qed.
 
-(* The recorded answers of the real VariadicCountedHashSet on the history
-   insert (1,1),(2,2),(3,3); extend 10 fresh rows; contains (1,1)
-   (corpus/C10/counted_extend.json, replayed on every run) violate C10: the last answer is
-   [false].  The abstract model answers [true]: hashbrown's [reserve] is given a rehash closure
-   that hashes the whole (row, count) entry, so the resized table loses the old rows. *)
+(* FORMER FINDING, fixed in /repo by commit 38aff06f64c.  On the history
+     insert (1,1),(2,2),(3,3); extend 10 fresh rows; contains (1,1)
+   the real VariadicCountedHashSet used to answer [true; true; true; unit; false]: extend called
+   hashbrown's [reserve] with a rehash closure hashing the whole (row, count) entry, so the
+   resized table lost the old rows.  The history is corpus/C10/counted_extend.json and is
+   re-checked first on every run.  The former theorem (C10_counted_extend_trace_refuted) stated
+   that those recorded answers fail C10_holds_b; what remains is the expected answer: *)
 Definition counted_extend_ops : list op :=
   [On false (SInsert [1; 1]); On false (SInsert [2; 2]); On false (SInsert [3; 3]);
    On false (SExtend [[4; 0]; [4; 1]; [4; 2]; [4; 3]; [4; 4]; [4; 5]; [4; 6]; [4; 7]; [4; 8]; [4; 9]]);
    On false (SContains [1; 1])]%N.
-Definition counted_extend_impl : list ans :=
-  [ABool true; ABool true; ABool true; AUnit; ABool false].
 
-Lemma counted_extend_trace_refuted :
-  exists ops impl, ops = counted_extend_ops /\ impl = counted_extend_impl /\
-    C10_holds_b KCounted ops impl = false /\
-    answers_eqb impl (model_run KCounted 2 ops) = false.
-Proof. exists counted_extend_ops, counted_extend_impl. repeat split; vm_compute; reflexivity. Qed.
+Lemma counted_extend_expected :
+  model_run KCounted 2 counted_extend_ops = [ABool true; ABool true; ABool true; AUnit; ABool true] /\
+  C10_holds_b KCounted counted_extend_ops [ABool true; ABool true; ABool true; AUnit; ABool true] = true /\
+  C10_holds_b KCounted counted_extend_ops [ABool true; ABool true; ABool true; AUnit; ABool false] = false.
+Proof. repeat split; vm_compute; reflexivity. Qed.
